@@ -52,7 +52,7 @@ def run(tier, seed, only=None):
            D.commit, D.rollback, D.release, D.drop, dp.Pool.connect, dp.Pool.release, dp.Pool.drop, dp.Pool.disconnect,
            ps.SQLitePool._connect, ps.SQLitePool.drop, ps.SQLitePool.disconnect, ppg.PGPool.release, ppg.PGPool._connect,
            ppg.PGProvider.set_transaction_mode, pmy.MySQLProvider.set_transaction_mode, pmy.MySQLProvider.release)
-    T = 150 if tier == 'quick' else 900
+    T = 150 if tier == 'quick' else 1800
     if tier == 'thorough':          # read by checks/h_c19.py in the worker processes
         os.environ['C19_K3MAX'] = os.environ.get('C19_NMAX', '80')
         os.environ['C19_ARMED2'] = '1'
@@ -61,7 +61,7 @@ def run(tier, seed, only=None):
     specs = [dict(module='checks.h_c19', fn=f, cond_timeout=T, path_timeout=T / 2, setup='setup') for f in h_c19.HARNESSES]
     if only: specs = [s for s in specs if only in s['fn']]
     rep.bounds = {
-        'fault positions': 'k1 < k2 over every numbered DB-API call of the armed phase (quick); k1 < k2 < k3 and a second armed session (thorough); '
+        'fault positions': 'k1 < k2 over every numbered DB-API call of the armed phase (quick); a second armed session, and k1 < k2 < k3 for exception class 0 / mid <= 3 (thorough); '
                            'the harness fails if a path makes more than NMAX=%d armed calls' % h_c19.NMAX,
         'fault points': 'connect, cursor, execute, executemany, commit, rollback, close (incl. the PRAGMAs inside SQLitePool._connect, DISCARD ALL inside PGPool.release)',
         'session shapes': list(h_c19.SHAPES), 'body raises': [False, True],
